@@ -14,7 +14,7 @@ RULE = ("(a) every subcircuit object returned by the emulator for basis-state pr
         "counting. non-trivial = n >= 2 (bit order observable); distinct = (mode, n, program or outcome list hash)")
 ASSUMPTIONS = ["bits(k, n): character i of the string = bit i of the integer (qubit 0 leftmost and least significant)"]
 TIERS = {"quick": {"shards": 8, "budget_s": 60}, "thorough": {"shards": 16, "budget_s": 300}}
-REQUIRE = {"views-held-and-rechecked": 5000, "many-shot-output-lists": 2, "mode:frequencies": 50, "mode:job": 50, "mode:emulator": 100, "mode:outputs": 50, "mode:direct": 50, "non-palindromic-certain-outcomes": 50,
+REQUIRE = {"output-lists-for-programs-without-the-harness-gate-set": 8, "views-held-and-rechecked": 5000, "many-shot-output-lists": 2, "mode:frequencies": 50, "mode:job": 50, "mode:emulator": 100, "mode:outputs": 50, "mode:direct": 50, "non-palindromic-certain-outcomes": 50,
            "outcomes-as-int": 500, "outcomes-as-str": 500, "views-checked": 300}
 
 
@@ -191,8 +191,21 @@ def judge_outputs(case):
     """One subcircuit visited len(outs) times; outcomes supplied as int and as str."""
     n = case["n"]
     values = case["values"]
-    text = "register q[%d]\nloop %d { prepare_all ; measure_all }\n" % (n, len(values))
-    o = lib.outcome(lib.parse, text, X.native())
+    touch = case.get("touch")
+    mid = "" if touch is None else " X q[%d] ;" % (touch % n)
+    text = "register q[%d]\nloop %d { prepare_all ;%s measure_all }\n" % (n, len(values), mid)
+    gates = case.get("gates", "native")
+    if gates == "none":
+        # a program parsed without gate definitions (the usual way to read back what hardware returned)
+        o = lib.outcome(lib.parse, text)
+    elif gates == "plain":
+        # the caller's own plain definitions of the bounding gates
+        from jaqalpaq.core import GateDefinition, Parameter, ParamType
+
+        o = lib.outcome(lib.parse, text, {"prepare_all": GateDefinition("prepare_all"), "measure_all": GateDefinition("measure_all"),
+                                          "X": GateDefinition("X", [Parameter("q", ParamType.QUBIT)])})
+    else:
+        o = lib.outcome(lib.parse, text, X.native())
     if o[0] != "ok":
         return "inconclusive:cannot-parse-probe", [], None
     c = o[1]
@@ -377,6 +390,10 @@ def shard(ctx):
         for j in range(0, len(vals), chunk):
             if ctx.mine(j // chunk + n):
                 process(ctx, {"mode": "outputs", "n": n, "values": vals[j:j + chunk]})
+                k = j // chunk + n
+                process(ctx, {"mode": "outputs", "n": n, "values": vals[j:j + chunk], "gates": ("none", "plain")[k % 2],
+                              "touch": None if k % 3 == 0 else k})
+                rec.count("output-lists-for-programs-without-the-harness-gate-set")
     # many shots of one outcome: tallies are counts, however large
     if ctx.index < 2:
         n = 1 + ctx.index
